@@ -61,6 +61,7 @@ def run_symbolic(h, case, float_mode=None, check_ms=None, max_paths=None, stop_o
     def once():
         from .interp import Env
         Env.OVERLAY.clear()
+        from . import tasks
         try:
             r = it.call(h.fn, list(case), {})
             from .interp import SCoroutine
@@ -70,6 +71,8 @@ def run_symbolic(h, case, float_mode=None, check_ms=None, max_paths=None, stop_o
             # an exception escaping the harness itself is a harness bug (or an
             # un-caught exception of the code under contract): treat as undecided
             raise Unsupported(f"exception escaped harness: {e.value!r}")
+        finally:
+            tasks.abandon_all()
 
     try:
         ex.explore(once)
@@ -153,11 +156,15 @@ def run_native(h, case):
 
 
 def _run_native(h, case):
+    from . import tasks
     with native_stubs(h):
-        r = h.fn(*case)
-        if hasattr(r, "send"):
-            import asyncio
-            asyncio.run(r)
+        try:
+            r = h.fn(*case)
+            if hasattr(r, "send"):
+                import asyncio
+                asyncio.run(r)
+        finally:
+            tasks.abandon_all()
 
 
 def replay_native(h, case, inputs):
